@@ -52,8 +52,15 @@ Call(r) == /\ r \in Readers \ open
            /\ badIn' = [badIn EXCEPT ![r] = \E q \in open : badIn[q]]
            /\ UNCHANGED <<cfg, goodSeen>>
 
-Resp(k) == /\ k \in Kinds
-           /\ IF k \in GoodKinds(cfg.hint)
+\* amb: the answer is ambiguous (see the driver: a 200 without any length for a locator without
+\* size hint, which a client may refuse or read to EOF and verify; surplus bytes behind a correct
+\* Content-Length, impossible on a real wire).  The read may end either way; clause (a) still holds.
+Resp(k, amb) ==
+           /\ k \in Kinds
+           /\ IF amb
+              THEN /\ goodSeen' = TRUE
+                   /\ badIn' = [r \in Readers |-> IF r \in open THEN TRUE ELSE badIn[r]]
+              ELSE IF k \in GoodKinds(cfg.hint)
               THEN /\ goodSeen' = TRUE
                    /\ UNCHANGED badIn
               ELSE /\ badIn' = [r \in Readers |-> IF r \in open THEN TRUE ELSE badIn[r]]
